@@ -62,7 +62,7 @@ class Pauli(raw_types.Gate, metaclass=abc.ABCMeta):
     def _commutes_(self, other: Any, *, atol: float = 1e-8) -> bool | NotImplementedType | None:
         if not isinstance(other, Pauli):
             return NotImplemented
-        return self is other
+        return self._index == other._index
 
     def third(self, second: Pauli) -> Pauli:
         return Pauli._XYZ[(-self._index - second._index) % 3]
